@@ -39,6 +39,52 @@ def _block(text, start):
     raise Untranslatable("unbalanced braces")
 
 
+def init_exits(src):
+    """_cffi_initialize_python: does the success exit / the error exit pass PyGILState_Release?
+    The body after PyGILState_Ensure is cut into statements; the success path starts there and the
+    error path at label `error`; a path follows unconditional gotos and ends at a `return`."""
+    m = re.search(r"static int _cffi_initialize_python\(void\)\s*\{", src)
+    if not m:
+        raise Untranslatable("_cffi_initialize_python not found")
+    body = src[m.end() - 1:_block(src, m.end() - 1)]
+    body = re.sub(r"/\*.*?\*/", " ", body, flags=re.S)
+    body = re.sub(r'"(?:[^"\\\\]|\\\\.)*"', '""', body)
+    e = re.search(r"state\s*=\s*PyGILState_Ensure\(\)\s*;", body)
+    if not e:
+        raise Untranslatable("PyGILState_Ensure not found")
+    # tokens of interest, in order
+    toks = [(x.start(), x.group(0)) for x in re.finditer(
+        r"\n\s*(\w+):;?(?=\s)|(?<![\w])if\s*\([^;{}]*\)\s*goto\s+\w+\s*;|goto\s+\w+\s*;|return\b[^;]*;|PyGILState_Release\(state\)\s*;", body)]
+    labels = {}
+    for i, (pos, t) in enumerate(toks):
+        lm = re.match(r"\n\s*(\w+):", t)
+        if lm:
+            labels[lm.group(1)] = i
+
+    def follow(i, seen=()):
+        released = False
+        while i < len(toks):
+            t = toks[i][1]
+            if t.startswith("PyGILState_Release"):
+                released = True
+            elif t.startswith("return"):
+                return released
+            elif t.startswith("goto"):
+                lab = re.match(r"goto\s+(\w+)", t).group(1)
+                if lab not in labels or lab in seen:
+                    raise Untranslatable("goto %s" % lab)
+                seen = seen + (lab,)
+                i = labels[lab]
+            i += 1
+        raise Untranslatable("a path of _cffi_initialize_python does not end in a return")
+    start = next((i for i, (pos, t) in enumerate(toks) if pos > e.end()), None)
+    if start is None or "error" not in labels:
+        raise Untranslatable("_cffi_initialize_python: no statements after Ensure or no label 'error'")
+    if any(pos < e.start() and (t.startswith("return") or "goto" in t) for pos, t in toks):
+        raise Untranslatable("_cffi_initialize_python: exit before PyGILState_Ensure")
+    return follow(start), follow(labels["error"])
+
+
 def translate_gen():
     """where does _cffi_start_python switch _cffi_call_python to the fast path?"""
     src = open(os.path.join(vlib.REPO, "src", "cffi", "_embedding.h")).read()
@@ -73,6 +119,7 @@ def translate_gen():
         what = 'after the "if (!called)" block, under "if (_cffi_call_python_org != NULL)", before the mutex release'
     else:
         raise Untranslatable("the switch is neither in the success branch nor between the block and the release")
+    exits = init_exits(src)
     return ("""(* C28/Gen.v — REGENERATED on every run by tools/props/c28.py:regen from
      /repo/src/cffi/_embedding.h   (_cffi_start_python: where "_cffi_call_python = ... _cffi_call_python_org"
                                     stands relative to the "if (!called)" block and its success branch)
@@ -80,7 +127,10 @@ def translate_gen():
 
 (* the switch to the fast path is %s *)
 Definition gen_switch_in_success : bool := %s.
-""" % (what, "true" if inside else "false"))
+
+(* _cffi_initialize_python: (the success exit, the error exit) passes PyGILState_Release(state) *)
+Definition gen_init_exits : bool * bool := (%s, %s).
+""" % (what, "true" if inside else "false", "true" if exits[0] else "false", "true" if exits[1] else "false"))
 
 
 def regen(ctx):
@@ -175,6 +225,11 @@ def scenarios(ctx):
                     drv=dict(main="w9,p5,d300,p10", threads=["c0:1", "w5,c0:2"], mode0="post+sync2"),
                     scheds=[[(0, 0)] + go(0, 13) + [(0, 0)] + go(0, 12) + [(1, 0)] + go(1, 20) + go(0, 21)
                             + go(1, 20)], n=2))
+    # library 0's init fails in T0; afterwards a different thread makes its first call into library 1:
+    # it must not hang (the failing thread must have given the GIL back)
+    out.append(dict(name="fail-then-other-library",
+                    drv=dict(main="", threads=["c0:1,p5", "w5,c1:2"], mode0="fail", watchdog=ctx.n(8, 12)),
+                    scheds=[[(0, 0)] + go(0, 40, "CFail") + [(1, 1)] + go(1, 40)], n=2))
     out.append(dict(name="two-libraries",
                     drv=dict(main="", threads=["b,c0:1", "b,c1:2"]),
                     scheds=[random_fair(rng, [[0], [1]]) for _ in range(ctx.n(3, 10))], n=2))
